@@ -2,5 +2,5 @@ SPECIFICATION Spec
 CONSTANTS
   ProtoSet = {0, 1, 2, 3, 4, 5, 9}
   MaxProto = 4
-INVARIANTS NoBinaryWithoutTunnel ProtocolClamped OnlyAdds ActOnlyNarrows
+INVARIANTS NoBinaryWithoutTunnel ProtocolClamped OnlyAdds NewlineAsDirect ActOnlyNarrows
 CHECK_DEADLOCK FALSE
